@@ -133,6 +133,28 @@ def _scales(ctx, n):
     return [_rand_scale(ctx.rng) for _ in range(n)] + [[1.0, 1.0, 1.0, 1.0]]
 
 
+# time units of 1 s (SI), 1 min, 1 h, 3 h, 1 day (DEFAULT_SCALE, time unit 1/(2 Omega), is always added by the runners)
+TIME_UNIT_SCALES = [[1.0, 1.0, 1.0, 1.0], [1.0, 60.0, 1.0, 1.0], [1.0, 3600.0, 1.0, 1.0], [1.0, 10800.0, 1.0, 1.0],
+                    [1.0, 86400.0, 1.0, 1.0], [6.37122e6, 13713.6587, 1.0, 1.0]]
+
+
+def _axis_scales(rng, n=None):
+    """scales in which exactly one base unit (length, time, mass, temperature) is extreme: 1e+-3, 1e+-6 times a
+    moderate unit system (1000 km, 1e4 s, 1 kg, 1 K); `n` = size of a random subset (always containing the large and
+    small temperature units)."""
+    base = [1e6, 1e4, 1.0, 1.0]
+    out = []
+    for ax in range(4):
+        for e in (3, -3, 6, -6):
+            v = list(base); v[ax] = base[ax] * 10.0 ** e; out.append(v)
+    if n is not None and n < len(out):
+        keep = {12, 14, 13}      # temperature 1e3, 1e6, 1e-3
+        rest = [i for i in range(len(out)) if i not in keep]
+        keep |= set(int(i) for i in rng.choice(rest, size=max(n - len(keep), 0), replace=False))
+        out = [out[i] for i in sorted(keep)]
+    return out
+
+
 def generate(ctx):
     rng = ctx.rng
     quick = ctx.tier == 'quick'
@@ -168,6 +190,21 @@ def generate(ctx):
     for kind, integs, filt, nsteps, method in pes:
         yield 'pe', {'kind': kind, 'integrators': integs, 'filters': filt, 'nsteps': nsteps, 'inverse_method': method,
                      'scales': _scales(ctx, ns), 'seed': seed(), 'K': 3}
+    # nearly isothermal reference profiles x one base unit at a time pushed to 1e+-3 / 1e+-6 (absolute thresholds on
+    # non-dimensional quantities are only visible when ONE unit is extreme and the quantity is close to the threshold)
+    ranges = [0.8, 1e-3] if quick else [1.0, 0.8, 0.05, 1e-3, 1e-6]
+    for i, rg in enumerate(ranges):
+        for kind in (['dry', 'moist'][i % 2:i % 2 + 1] if quick else ['dry', 'moist']):
+            yield 'pe_extreme', {'kind': kind, 'tref_range': rg, 'seed': seed(), 'K': 3, 'scales': _axis_scales(rng, None if not quick else 8)}
+    yield 'sw_extreme', {'seed': seed(), 'scales': _axis_scales(rng, None if not quick else 8)}
+    # multi-step digital filter initialisation: SI windows that are whole multiples of the SI step
+    pairs = [[21600.0, 1200.0], [21600.0, 1800.0], [10800.0, 600.0], [3600.0, 450.0]]
+    yield 'dfi', {'eq': 'shallow_water', 'pairs': pairs, 'scales': TIME_UNIT_SCALES, 'seed': seed()}
+    yield 'dfi', {'eq': 'dry', 'pairs': pairs[:1] + pairs[3:] if quick else pairs, 'scales': TIME_UNIT_SCALES, 'seed': seed()}
+    # winds <-> vorticity/divergence through the library's jitted helpers, several scales in one process, both orders
+    for _ in range(1 if quick else 3):
+        yield 'winds', {'scales': _scales(ctx, 2), 'seed': seed()}
+    yield 'threshold_scan', {}
     for integ in (['imex_rk_sil3'] if quick else ['imex_rk_sil3', 'crank_nicolson_rk3', 'backward_forward_euler']):
         yield 'held_suarez', {'integrator': integ, 'nsteps': 2, 'scales': _scales(ctx, ns), 'seed': seed()}
     for integs in ([['crank_nicolson_rk2', 'leapfrog']] if quick else [[i, 'leapfrog'] for i in dyn.INTEGRATORS]):
@@ -299,14 +336,15 @@ def _to_jnp(tree):
 # ---------------------------------------------------------------------------
 # primitive equations (dry / with time / moist / cloud)
 # ---------------------------------------------------------------------------
-def _pe_problem(rng, kind, K):
+def _pe_problem(rng, kind, K, tref_range=None):
     g0 = dyn.grid()
     p = dict(b=util.uneven_boundaries(rng, K), consts=_si_constants(rng),
              vort=dyn.modal_field(rng, g0, (K,), 2, True, 2e-5), div=dyn.modal_field(rng, g0, (K,), 2, True, 4e-6),
              temp=dyn.modal_field(rng, g0, (K,), 2, False, 3.0),
              ps=1e5 * (1.0 + 0.03 * np.asarray(g0.to_nodal(dyn.modal_field(rng, g0, (1,), 2, False, 1.0)))),
              oro=dyn.modal_field(rng, g0, (), 2, False, 300.0),
-             tref=250.0 + rng.integers(-30, 31, size=K).astype(np.float64),
+             tref=(250.0 + rng.integers(-30, 31, size=K).astype(np.float64)) if tref_range is None else
+                  (float(rng.integers(230, 290)) + tref_range * np.sort(rng.integers(0, 65, size=K).astype(np.float64) / 64.0 + np.arange(K))[::-1] / K),
              tracers={t: dyn.modal_field(rng, g0, (K,), 2, False, 0.004) for t in dyn.PE_TRACERS[kind]},
              dt=float(rng.integers(300, 1500)))
     for t in p['tracers']:
@@ -572,6 +610,233 @@ def r_radiation(ctx, a):
         R.append(out)
     fl = {k: 1.0 for k in R[0] if 'cos(' in k}
     _cmp(ctx, 'solar radiation equal in SI under every scale', R, labels, floor=fl)
+
+
+# ---------------------------------------------------------------------------
+# one base unit extreme at a time, nearly isothermal reference temperature
+# ---------------------------------------------------------------------------
+def r_pe_extreme(ctx, a):
+    m = M(); ti = m['ti']
+    rng = np.random.Generator(np.random.PCG64(a['seed']))
+    kind = a['kind']; p = _pe_problem(rng, kind, a['K'], tref_range=a['tref_range'])
+    labels = ['default', [1.0, 1.0, 1.0, 1.0]] + a['scales']
+    R = {k: [] for k in ('explicit', 'implicit', 'step')}
+    for sv in labels:
+        specs, g, c, st, eq = _pe_setup(sv, p, kind)
+        dt = float(_ND(specs, p['dt'], 'second'))
+        ex = eq.explicit_terms(st); im = eq.implicit_terms(st)
+        R['explicit'].append(_pe_tend_si(specs, ex, '', _gmax(ex)))
+        R['implicit'].append(_pe_tend_si(specs, im, '', _gmax(im)))
+        s1 = dyn.integrator('crank_nicolson_rk2', eq, dt)(st)
+        R['step'].append(_pe_state_si(specs, g, s1, 'crank_nicolson_rk2 step: ', _gmax(s1, st)))
+    ctx.count('tref_range:%g' % a['tref_range'])
+    nm = f'primitive equations ({kind}), nearly isothermal T_ref, one base unit extreme'
+    _cmp(ctx, nm + ': explicit_terms equal in SI under every scale', R['explicit'], labels)
+    _cmp(ctx, nm + ': implicit_terms equal in SI under every scale', R['implicit'], labels)
+    _cmp(ctx, nm + ': a time step equal in SI under every scale', R['step'], labels)
+
+
+def _sw_problem(rng):
+    m = M(); u = m['units']; sc = m['scales']; g0 = dyn.grid(); K = 2
+    f = lambda: float(1.0 + 0.2 * (rng.random() - 0.5))
+    consts = dict(densities=np.array([1000.0, 1000.0 + float(rng.integers(50, 400))]) * u.kg / u.m ** 3, radius_si=sc.RADIUS * f(),
+                  angular_velocity_si=sc.ANGULAR_VELOCITY * f(), gravity_acceleration_si=sc.GRAVITY_ACCELERATION * f())
+    return dict(consts=consts, K=K, vort=dyn.modal_field(rng, g0, (K,), 2, True, 2e-5), div=dyn.modal_field(rng, g0, (K,), 2, True, 4e-6),
+                pot=dyn.modal_field(rng, g0, (K,), 2, False, 60.0), oro=dyn.modal_field(rng, g0, (), 2, False, 150.0),
+                ref=np.array([3.0e4, 2.0e4]) * f(), dt=float(rng.integers(300, 1200)))
+
+
+def _sw_setup(sv, p):
+    m = M(); sw = m['sw']
+    specs = sw.ShallowWaterSpecs.from_si(scale=_scale(sv), **p['consts'])
+    g = dyn.grid(radius=specs.radius); c = dyn.layer_coords(g, p['K'])
+    st = _to_jnp(sw.State(vorticity=_ND(specs, p['vort'], '1/second'), divergence=_ND(specs, p['div'], '1/second'),
+                          potential=_ND(specs, p['pot'], 'meter**2/second**2')))
+    eq = sw.ShallowWaterEquations(c, specs, _ND(specs, p['oro'], 'meter**2/second**2'), _ND(specs, p['ref'], 'meter**2/second**2'))
+    return specs, g, c, st, eq
+
+
+def _sw_si(specs, t, pre, gm, tend=False):
+    u = M()['units']; out = Out()
+    if tend:
+        _put(out, specs, pre + 'vorticity[1/s^2]', t.vorticity, '1/second**2', gm); _put(out, specs, pre + 'divergence[1/s^2]', t.divergence, '1/second**2', gm)
+        _put(out, specs, pre + 'potential[m^2/s^3]', t.potential, u.m ** 2 / u.s ** 3, gm)
+    else:
+        _put(out, specs, pre + 'vorticity[1/s]', t.vorticity, '1/second', gm); _put(out, specs, pre + 'divergence[1/s]', t.divergence, '1/second', gm)
+        _put(out, specs, pre + 'potential[m^2/s^2]', t.potential, 'meter**2/second**2', gm)
+    return out
+
+
+def r_sw_extreme(ctx, a):
+    rng = np.random.Generator(np.random.PCG64(a['seed'])); p = _sw_problem(rng)
+    labels = ['default', [1.0, 1.0, 1.0, 1.0]] + a['scales']
+    R = {k: [] for k in ('explicit', 'implicit', 'step')}
+    for sv in labels:
+        specs, g, c, st, eq = _sw_setup(sv, p)
+        dt = float(_ND(specs, p['dt'], 'second'))
+        ex = eq.explicit_terms(st); im = eq.implicit_terms(st)
+        R['explicit'].append(_sw_si(specs, ex, '', _gmax(ex), True)); R['implicit'].append(_sw_si(specs, im, '', _gmax(im), True))
+        s1 = dyn.integrator('crank_nicolson_rk2', eq, dt)(st)
+        R['step'].append(_sw_si(specs, s1, 'step: ', _gmax(s1, st)))
+    for k in R:
+        _cmp(ctx, f'shallow water, one base unit extreme: {k} equal in SI under every scale', R[k], labels)
+
+
+# ---------------------------------------------------------------------------
+# multi-step run: digital filter initialisation
+# ---------------------------------------------------------------------------
+def r_dfi(ctx, a):
+    """time_integration.digital_filter_initialization over SI windows that are whole multiples of the SI step: the
+    number of steps (and the Lanczos weights) must not depend on the time unit."""
+    m = M(); ti = m['ti']; jax = m['jax']
+    rng = np.random.Generator(np.random.PCG64(a['seed']))
+    labels = ['default'] + a['scales']
+    p = _sw_problem(rng) if a['eq'] == 'shallow_water' else _pe_problem(rng, 'dry', 3)
+    for W, S in a['pairs']:
+        Rn, Rs = [], []
+        for sv in labels:
+            if a['eq'] == 'shallow_water':
+                specs, g, c, st, eq = _sw_setup(sv, p); solver = ti.crank_nicolson_rk2
+            else:
+                specs, g, c, st, eq = _pe_setup(sv, p, 'dry'); solver = ti.crank_nicolson_rk2
+            nd = lambda x: float(_ND(specs, x, 'second'))
+            w = ti._dfi_lanczos_weights(nd(W), nd(W), nd(S))
+            Rn.append({'number of steps in each half of the window': np.asarray([float(len(w))]), 'lanczos weights (padded)': np.pad(w, (0, 64 - len(w)))})
+            filt = _filters_si(['exponential'], g, specs, S)
+            with jax.disable_jit():        # the scans are executed step by step: no compilation per scale
+                out = ti.digital_filter_initialization(eq, solver, filt, nd(W), nd(W), nd(S))(st)
+            gm = (len(w) + 1) * _gmax(out, st)
+            Rs.append(_sw_si(specs, out, '', gm) if a['eq'] == 'shallow_water' else _pe_state_si(specs, g, out, '', gm))
+        ctx.count('dfi:%s window=%gs step=%gs' % (a['eq'], W, S))
+        _cmp(ctx, f'digital filter initialization ({a["eq"]}): step count and weights do not depend on the time unit', Rn, labels)
+        _cmp(ctx, f'digital filter initialization ({a["eq"]}): filtered multi-step state equal in SI under every scale', Rs, labels)
+
+
+# ---------------------------------------------------------------------------
+# winds <-> vorticity/divergence with the jitted helpers, several scales in one process
+# ---------------------------------------------------------------------------
+def r_winds(ctx, a):
+    m = M(); sh = m['sh']; pe = m['pe']; jnp = m['jnp']
+    rng = np.random.Generator(np.random.PCG64(a['seed']))
+    g0 = dyn.grid(); consts = _si_constants(rng)
+    # SI winds (m/s) of a band-limited flow: diagnosed once, with the grid methods, from SI vorticity / divergence on a
+    # grid whose radius is the SI radius in metres
+    g_si = dyn.grid(radius=float(consts['radius_si'].to('meter').magnitude))
+    vor_si = dyn.modal_field(rng, g_si, (2,), 2, True, 2e-5); div_si = dyn.modal_field(rng, g_si, (2,), 2, True, 4e-6)
+    cu, cv = sh.get_cos_lat_vector(jnp.asarray(vor_si), jnp.asarray(div_si), g_si, clip=False)
+    usi = np.asarray(g_si.to_nodal(cu)) / np.asarray(g_si.cos_lat); vsi = np.asarray(g_si.to_nodal(cv)) / np.asarray(g_si.cos_lat)
+    A, B = a['scales'][0], a['scales'][1]
+    order = ['default', A, B, A, [1.0, 1.0, 1.0, 1.0], B, 'default']          # A then B, B then A, ... in ONE process
+    labels = []; R = []
+    grids = {}
+    for n, sv in enumerate(order):
+        specs = pe.PrimitiveEquationsSpecs.from_si(scale=_scale(sv), **consts)
+        g = dyn.grid(radius=specs.radius); grids[json_key(sv)] = g
+        und = jnp.asarray(_ND(specs, usi, 'meter/second')); vnd = jnp.asarray(_ND(specs, vsi, 'meter/second'))
+        vor, div = sh.uv_nodal_to_vor_div_modal(g, und, vnd)
+        # the same computation with the (non-jitted) grid methods
+        uo = g.to_modal(und / g.cos_lat); vo = g.to_modal(vnd / g.cos_lat)
+        vor_ref = g.curl_cos_lat((uo, vo), clip=True); div_ref = g.div_cos_lat((uo, vo), clip=True)
+        sc_v = float(np.max(np.abs(np.asarray(vor_ref)))) + 1e-300
+        ctx.oracle_close('uv_nodal_to_vor_div_modal = the grid methods of THIS grid (call %d of a multi-scale sequence)' % n,
+                         np.asarray(vor), np.asarray(vor_ref), scale=sc_v, tol_rel=1e-10)
+        ctx.oracle_close('uv_nodal_to_vor_div_modal = the grid methods of THIS grid (call %d of a multi-scale sequence)' % n,
+                         np.asarray(div), np.asarray(div_ref), scale=sc_v, tol_rel=1e-10)
+        u2, v2 = sh.vor_div_to_uv_nodal(g, vor_ref, div_ref)
+        out = {'vorticity from SI winds[1/s]': _D(specs, vor, '1/second'), 'divergence from SI winds[1/s]': _D(specs, div, '1/second'),
+               'winds diagnosed from vorticity/divergence, u[m/s]': _D(specs, u2, 'meter/second'),
+               'winds diagnosed from vorticity/divergence, v[m/s]': _D(specs, v2, 'meter/second')}
+        R.append(out); labels.append(sv if n else 'default')
+    fl = {'divergence from SI winds[1/s]': float(np.max(np.abs(R[0]['vorticity from SI winds[1/s]'])))}
+    _cmp(ctx, 'state built from SI winds / winds diagnosed from the state are equal in SI under every scale, in any call order', R, labels, floor=fl)
+    ctx.oracle_close('winds diagnosed from (vorticity, divergence) of band-limited winds return the winds', R[0]['winds diagnosed from vorticity/divergence, u[m/s]'], usi,
+                     scale=float(np.max(np.abs(usi))), tol_rel=1e-9)
+    ctx.oracle_close('vorticity of the SI winds is the SI vorticity they were diagnosed from', R[0]['vorticity from SI winds[1/s]'], vor_si,
+                     scale=float(np.max(np.abs(vor_si))), tol_rel=1e-9)
+    gs = list(grids.values())
+    ok = all((g1 != g2) and (hash(g1) != hash(g2) or g1 != g2) for i, g1 in enumerate(gs) for g2 in gs[i + 1:] if g1.radius != g2.radius)
+    ctx.oracle('grids that differ only in radius are different jit-static arguments (g1 != g2)', bool(ok),
+               {'radii': [float(g.radius) for g in gs]})
+    import dataclasses
+    g1 = dyn.grid(radius=1.0); g2 = dataclasses.replace(g1, radius=2.0)
+    ctx.oracle('grids that differ only in radius are different jit-static arguments (g1 != g2)', bool(g1 != g2), {'radii': [1.0, 2.0]})
+
+
+def json_key(sv):
+    return 'default' if sv == 'default' else ','.join(repr(float(x)) for x in sv)
+
+
+# ---------------------------------------------------------------------------
+# AST scan: absolute numeric thresholds inside function bodies
+# ---------------------------------------------------------------------------
+# Documented exceptions of the reviewed tree (module, function, source of the comparison / call); all of them act on
+# dimensionless or fixed-unit quantities:
+#  * dinosaur/sigma_coordinates.py:80 SigmaCoordinates.__init__: np.isclose(boundaries[0], 0) / np.isclose(boundaries[-1], 1) - sigma
+#  * dinosaur/horizontal_interpolation.py:298: jnp.isclose(not_null_fraction, 1, rtol=0.001) - a fraction
+#  * dinosaur/xarray_utils.py:859/862 verify_grid_consistency, :1008/1009 infer_latitude_spacing - angles in degrees
+#  * dinosaur/vertical_interpolation.py:202 _from_resource_csv: 100 < a.max() < 1000 - hPa table sanity check (fixed unit)
+ALLOWED_THRESHOLDS = {
+    ('sigma_coordinates', '__init__', 'np.isclose(self.boundaries[0], 0)'),
+    ('sigma_coordinates', '__init__', 'np.isclose(self.boundaries[-1], 1)'),
+    ('horizontal_interpolation', '__call__', 'jnp.isclose(not_null_fraction, 1, rtol=0.001)'),
+    ('xarray_utils', 'verify_grid_consistency', 'np.testing.assert_allclose(180 / np.pi * grid.longitudes, longitude, atol=0.001)'),
+    ('xarray_utils', 'verify_grid_consistency', 'np.testing.assert_allclose(180 / np.pi * grid.latitudes, latitude, atol=0.001)'),
+    ('xarray_utils', 'infer_latitude_spacing', 'np.allclose(np.diff(lat), lat[1] - lat[0])'),
+    ('xarray_utils', 'infer_latitude_spacing', 'np.isclose(max(lat), 90.0)'),
+    ('vertical_interpolation', '_from_resource_csv', '100 < a.max() < 1000'),
+}
+
+
+def _structural(e):
+    """operand that is a shape / rank / length / index, not a physical quantity."""
+    src = ast.unparse(e)
+    return bool(re.search(r'(ndim|\.size|\.shape|\blen\(|\.layers|_nodes|wavenumbers|\.count\(|\bsteps\b|num_|\blength\b|\.index\()', src))
+
+
+def scan_thresholds(repo):
+    d = os.path.join(repo, 'dinosaur')
+    hits = []
+    for f in sorted(os.listdir(d)):
+        if not f.endswith('.py') or f.endswith('_test.py'): continue
+        try:
+            t = ast.parse(open(os.path.join(d, f)).read())
+        except SyntaxError:
+            continue
+        mod = f[:-3]
+        for fn in ast.walk(t):
+            if not isinstance(fn, (ast.FunctionDef, ast.AsyncFunctionDef)): continue
+            for node in ast.walk(fn):
+                if isinstance(node, ast.Compare):
+                    sides = [node.left] + list(node.comparators)
+                    lits = []
+                    for sd in sides:
+                        v = sd.operand if isinstance(sd, ast.UnaryOp) else sd
+                        if isinstance(v, ast.Constant) and isinstance(v.value, (int, float)) and not isinstance(v.value, bool):
+                            lits.append(v.value)
+                    others = [sd for sd in sides if not (isinstance(sd.operand if isinstance(sd, ast.UnaryOp) else sd, ast.Constant))]
+                    if not lits or not others: continue
+                    nonzero_float = any(isinstance(v, float) and v != 0 for v in lits)
+                    big_int = any(isinstance(v, int) and abs(v) > 2 for v in lits)
+                    if (nonzero_float or big_int) and not all(_structural(o) for o in others):
+                        hits.append((mod, fn.name, ast.unparse(node), node.lineno))
+                elif isinstance(node, ast.Call):
+                    nm = node.func.attr if isinstance(node.func, ast.Attribute) else node.func.id if isinstance(node.func, ast.Name) else ''
+                    if nm in ('isclose', 'allclose', 'assert_allclose', 'assert_array_almost_equal', 'assert_almost_equal'):
+                        hits.append((mod, fn.name, ast.unparse(node), node.lineno))
+    seen = set(); out = []
+    for h in hits:
+        if h not in seen: seen.add(h); out.append(h)
+    return out
+
+
+def r_threshold_scan(ctx, a):
+    repo = os.environ.get('DINOSAUR_REPO', '/repo')
+    hits = scan_thresholds(repo)
+    new = [f'dinosaur/{m_}.py:{ln}: {fn}: {src}' for m_, fn, src, ln in hits if (m_, fn, src) not in ALLOWED_THRESHOLDS]
+    old = [f'dinosaur/{m_}.py:{ln}: {fn}: {src}' for m_, fn, src, ln in hits if (m_, fn, src) in ALLOWED_THRESHOLDS]
+    ctx.table_obligation('no absolute numeric threshold / tolerance test inside function bodies beyond the documented exceptions',
+                         not new, {'new': new, 'documented exceptions present': old})
+    ctx.count('scan:documented_thresholds', len(old))
 
 
 # ---------------------------------------------------------------------------
@@ -942,7 +1207,8 @@ def r_ast_scan(ctx, a):
                           'call sites relying on them (scale-dependent behaviour of the caller)': r['literal_default_calls']})
 
 
-RUNNERS = {'ast_scan': r_ast_scan, 'units': r_units, 'sigma_homog': r_sigma_homog, 'nodal_homog': r_nodal_homog, 'moist_homog': r_moist_homog, 'column_homog': r_column_homog,
+RUNNERS = {'pe_extreme': r_pe_extreme, 'sw_extreme': r_sw_extreme, 'dfi': r_dfi, 'winds': r_winds, 'threshold_scan': r_threshold_scan,
+           'ast_scan': r_ast_scan, 'units': r_units, 'sigma_homog': r_sigma_homog, 'nodal_homog': r_nodal_homog, 'moist_homog': r_moist_homog, 'column_homog': r_column_homog,
            'column_matrix': r_column_matrix, 'expr': r_expr, 'pe': r_pe,
            'held_suarez': r_held_suarez, 'shallow_water': r_shallow_water, 'filters': r_filters, 'helpers': r_helpers,
            'init_states': r_init_states, 'radiation': r_radiation}
